@@ -145,6 +145,10 @@ def handle : List Sexp → Option String
       some (match GenK.eosTurn rd p0 with
         | .ok (res, p') => (match res with | none => "ok none" | some t => s!"ok some {if t then 1 else 0}") ++ s!" | {p'}"
         | .error e => "err " ++ errName e)
+  | [.atom "KINTENC", .atom compact, .atom v] => do
+      some (match GenK.intEncode (compact == "1") (← v.toInt?) with
+        | .ok (sub, c, o) => s!"ok{ints sub} | {c} {o}"
+        | .error e => "err " ++ errName e)
   | [.atom "KBERBOOLENC", .atom v] => do
       some (match GenK.berBoolEnc (← v.toInt?) with
         | .ok (sub, c, o) => s!"ok{ints sub} | {c} {o}"
